@@ -81,6 +81,8 @@ var vShapes = []string{
 	"aSp", "paS", "aFp", "Dp", "pD", "p", "pk", "Sp", "Cp",
 	// a flag given twice
 	"wpp", "pwp", "wppk",
+	// a stray word at the very end, after a key
+	"wk#", "aSk#", "aFk#",
 }
 
 var vAddArgs = []string{"always,exit", "exit,never", " task , always ", "user,always", "exclude,never"}
@@ -150,6 +152,7 @@ func VH_Tokens() {
 	hole := vParam("hole", 4)
 	var toks []vTok
 	var line string
+	var starts []int // where each token's text begins in line
 	for i := 0; i < len(shape); i++ {
 		k := shape[i]
 		var arg string
@@ -167,6 +170,7 @@ func VH_Tokens() {
 			vAssume(arg[j] != '\'') // so that single-quoting is exact
 		}
 		toks = append(toks, vTok{k, arg})
+		starts = append(starts, len(line))
 		if len(line) > 0 {
 			line += " "
 		}
@@ -202,6 +206,25 @@ func VH_Tokens() {
 			case 2:
 				line += "-" + string([]byte{k}) + " \"" + arg + "\""
 			}
+		}
+	}
+	if vParam("mergeprelude", 0) != 0 && len(toks) >= 2 {
+		// a look-alike line is parsed first: the same words, with the last one (flag and argument, or
+		// stray word) folded into the quoted argument of the flag before it. What Parse makes of the
+		// line under test must not depend on that.
+		last, prev := toks[len(toks)-1], toks[len(toks)-2]
+		bare := last.arg
+		ok := prev.kind != 'D' && prev.kind != 'a' && prev.kind != 'A' && prev.kind != '#'
+		if last.kind == 'D' {
+			bare = "-D"
+		} else if last.kind != '#' {
+			bare = "-" + string([]byte{last.kind}) + " " + last.arg
+		}
+		for j := 0; j < len(bare); j++ {
+			ok = ok && bare[j] != '\'' && bare[j] != '"' && bare[j] != '\\'
+		}
+		if ok {
+			Parse(line[:starts[len(toks)-2]] + " -" + string([]byte{prev.kind}) + " '" + prev.arg + " " + bare + "'")
 		}
 	}
 	r, err := Parse(line)
